@@ -210,9 +210,25 @@ func (s *Synchronizer) OnRemoteTimeout(timeout hotstuff.TimeoutMsg) {
 	currView := s.state.View()
 	defer s.timeouts.deleteOldViews(currView)
 
+	// the timeout counts for its sender, so the signatures must be the sender's own
+	if !signedBy(timeout.ViewSignature, timeout.ID) {
+		s.logger.Infof("View timeout signature is not signed by the sender %d", timeout.ID)
+		return
+	}
 	if err := s.auth.Verify(timeout.ViewSignature, timeout.View.ToBytes()); err != nil {
 		s.logger.Infof("View timeout signature could not be verified: %v", err)
 		return
+	}
+	if s.config.HasAggregateQC() {
+		// the message signature becomes part of the aggregate QC built from a quorum of timeouts
+		if !signedBy(timeout.MsgSignature, timeout.ID) {
+			s.logger.Infof("Timeout message signature is not signed by the sender %d", timeout.ID)
+			return
+		}
+		if err := s.auth.Verify(timeout.MsgSignature, timeout.ToBytes()); err != nil {
+			s.logger.Infof("Timeout message signature could not be verified: %v", err)
+			return
+		}
 	}
 	s.logger.Debug("OnRemoteTimeout (advancing view): ", timeout)
 	s.advanceView(timeout.SyncInfo)
@@ -234,6 +250,15 @@ func (s *Synchronizer) OnRemoteTimeout(timeout hotstuff.TimeoutMsg) {
 
 	s.logger.Debugf("OnRemoteTimeout (second advance)")
 	s.advanceView(si)
+}
+
+// signedBy returns true if sig is a signature of exactly the replica with the given id.
+func signedBy(sig hotstuff.QuorumSignature, id hotstuff.ID) bool {
+	if sig == nil || id == 0 {
+		return false
+	}
+	participants := sig.Participants()
+	return participants.Len() == 1 && participants.Contains(id)
 }
 
 // OnNewView handles an incoming consensus.NewViewMsg
